@@ -239,6 +239,12 @@ def guarded_sites(lib, fn):
 
 def run(ctx, fb, cfg):
     lib = fb.lib
+    # the "precondition" panic of verify_all_bound is dead on well-formed programs only if the
+    # domain store is consulted under the walked representative (rule shared with C16)
+    if any(p.startswith("crate::relation::clpfd") for p in lib.fns):
+        import fdrules
+
+        fdrules.check_dstore_keys(ctx, lib, "C23.K3.domain-store-keys")
     R = "C23.K8.panic-inventory"
     edges, bodies = call_graph(lib)
     rs = roots(lib)
